@@ -137,6 +137,9 @@ def plan(tier, seed):
     def slice_cases(hi):
         for t in texts(TCHARS, 0, hi):
             yield {'t': t}
+        # characters that Python code would escape (a literal is not to be cut in its escaped spelling)
+        for t in ('a\\b', 'x\ny', '\\', 'a\tb\\'):
+            yield {'t': t}
 
     def search_cases():
         for f in texts(FCHARS, 1, FL):
